@@ -330,7 +330,7 @@ def check_C10(ctx):
 
 
 C11_TAGS = {"WriteOnlyWhenActive", "WriteOnlyWhenAttached", "RemovedStoresNothing", "RemovedIsSticky", "DetachTakesEffect",
-            "RemoveTakesEffect", "DeactivateDetachesAll", "DeactivateNeverFails", "MinVVNotHeldBack", "SyncNeverFails"}
+            "RemoveTakesEffect", "DeactivateDetachesAll", "DeactivateNeverFails", "MinVVNotHeldBack", "RowWritten", "SyncNeverFails"}
 
 
 def check_C11(ctx):
